@@ -447,4 +447,19 @@ theorem bank_windows_disjoint (banks : List Bank) (h : checkBankOverlap banks = 
   simp only [banksOverlap, h1, h2, hs1, hs2, Bool.not_eq_true', Bool.and_eq_false_iff, decide_eq_false_iff_not] at this
   omega
 
+
+/-! ### bank fields (findings F65 and F57, repaired) -/
+
+/-- **`fill = false` does not fill**, `fill = true` and a bare `fill` do, and an absent field does not -/
+theorem fill_field_means_its_value (nm : String) (b : Bool) :
+    fillValue (some ⟨nm, some (.lit (.bool b))⟩) = .ok b ∧ fillValue (some ⟨nm, none⟩) = .ok true ∧ fillValue none = .ok false :=
+  ⟨rfl, rfl, rfl⟩
+
+/-- a value that is not a boolean literal is rejected, not taken for true -/
+theorem fill_field_rejects_other_values (nm : String) (v : BI) :
+    fillValue (some ⟨nm, some (.lit (.int v))⟩) = .error "expected boolean literal" := rfl
+
+/-- **only labels are padded to `labelalign`**: visiting a constant declaration leaves every bank position as it was -/
+theorem constant_is_not_padded (banks : List Bank) (s : IterSt) (k : Nat) : visit banks s (.const k) = .ok s := rfl
+
 end Casm.C06
